@@ -7,6 +7,7 @@ from rules import is_forward
 from props.C04 import call_results
 
 META = {
+    "explanation_r6": 'Also (round 6): ops.len() reaches the entry-limit comparison of add_op / verify without a narrowing cast (C06.limit.width).',
     "explanation_more": "Also (round 4): can_write is true only for AnyoneCanWrite or a listed writer; an operation addressed to this register always reaches the CRDT, apply_op has no refusal of its own (C06.apply.*); what a node stores for a register is a verified copy or the verified merge (C07's rules as C06.node.*).",
     "explanation": "Decides: (1) SignedRegister.ops (a BTreeSet) is mutated only by merge / verified_merge (BTreeSet::extend with the other side's "
                    "ops) and add_op (BTreeSet::insert) — no remove/retain/clear — so replicated state is a grow-only set and merging is set "
